@@ -227,6 +227,23 @@ def c16_attach_race(rng, count, rounds=40):
     return out
 
 
+def c16_redial(rng, count):
+    """a peer dialled on demand whose connection starts failing its writes (the read side stays open and silent, and -
+    half of the time - sits in a Read that ignores its context): the envelope in hand is lost with the connection, the
+    next one dials again and is delivered"""
+    out = []
+    for k in range(count):
+        ids = Ids()
+        deaf = k % 2 == 0
+        dial = {'s1': 'okdeaf' if deaf else 'ok'}
+        steps = [attach('a', 1), w(ids, 1, 'a', 's1', rep=rng.randint(1, 3)), Q,
+                 fault('wfail', dialed='s1'), w(ids, 1, 'a', 's1'), Q,
+                 w(ids, 1, 'a', 's1', rep=rng.randint(1, 3)), Q,
+                 w(ids, 0, 's1', 'a', rep=2, dialed='s1'), Q]
+        out.append(scen('C16', 'redial after a write failure (deaf reader: %s) #%d' % (deaf, k), steps, dial=dial))
+    return out
+
+
 def c16_burst(rng, count):
     """above the 16-slot buffer: the destination does not drain (stuck peer / slow dial)"""
     out = []
@@ -413,10 +430,10 @@ def c16_rpc_reattach(rng, count):
 def generate_c16(tier, rng):
     if tier == 'quick':
         s = c16_single(rng, 125) + c16_seq(rng, 145, 3, 2, 10) + c16_pairorder(rng, 30) + c16_dial(rng, 40) + c16_burst(rng, 30)
-        s += c16_reattach(rng, 30) + c16_rpc(rng, 80, 3, 2) + c16_rpc_burst(rng, 12) + c16_rpc_reattach(rng, 8) + c16_attach_race(rng, 60)
+        s += c16_reattach(rng, 30) + c16_rpc(rng, 80, 3, 2) + c16_rpc_burst(rng, 12) + c16_rpc_reattach(rng, 8) + c16_attach_race(rng, 60) + c16_redial(rng, 8)
     else:
         s = c16_single(rng, 100000) + c16_seq(rng, 6500, 8, 4, 24) + c16_pairorder(rng, 500) + c16_dial(rng, 800) + c16_burst(rng, 500)
-        s += c16_reattach(rng, 600) + c16_rpc(rng, 1800, 8, 4) + c16_rpc_burst(rng, 100) + c16_rpc_reattach(rng, 100) + c16_attach_race(rng, 600)
+        s += c16_reattach(rng, 600) + c16_rpc(rng, 1800, 8, 4) + c16_rpc_burst(rng, 100) + c16_rpc_reattach(rng, 100) + c16_attach_race(rng, 600) + c16_redial(rng, 80)
     return s
 
 
